@@ -1,6 +1,7 @@
 package ext
 
 import (
+	"bytes"
 	"crypto/ecdsa"
 	"crypto/sha256"
 	"encoding/binary"
@@ -406,4 +407,21 @@ func (m *Minter) BridgeEvents(hubAddrOK func(string) bool) []MEvent {
 		}
 	}
 	return out
+}
+
+// MinterSigValid tells whether sig is addr's signature over digest d.
+func MinterSigValid(d [32]byte, sig []byte, addr [20]byte) bool {
+	if len(sig) != 65 {
+		return false
+	}
+	raw := append([]byte(nil), sig...)
+	if raw[64] >= 27 {
+		raw[64] -= 27
+	}
+	pub, err := ethcrypto.SigToPub(d[:], raw)
+	if err != nil {
+		return false
+	}
+	a := ethcrypto.PubkeyToAddress(*pub)
+	return bytes.Equal(a[:], addr[:])
 }
